@@ -338,6 +338,17 @@ def corner_catalogue():
     return sym, asym
 
 
+def failing_catalogue_ids(pid):
+    """Layout ids of the fixed catalogues with recorded findings (corpus/C05/known_finding_candidates.json, written when the
+    catalogue was first enumerated on the unchanged tree): these are searched in every quick run."""
+    path = os.path.join(common.VERIF, "corpus", "C05", "known_finding_candidates.json")
+    try:
+        ents = json.load(open(path))["findings"]
+    except Exception:
+        return set()
+    return {e["classifier"].split(":", 1)[1] for e in ents if e.get("property") == pid and ":" in e.get("classifier", "")}
+
+
 def boundary_for_run(ctx, n_sampled):
     """The always-run boundary layouts plus `n_sampled` of the others (all of them if n_sampled is None)."""
     cat = boundary_catalogue()
@@ -1061,7 +1072,8 @@ class C05(Spec):
             # corner layouts: all of them get the structural check + loudspeaker/vertex directions (budget 0), a seeded
             # sample (all in the thorough tier) gets the full direction search
             csym, casym = corner_catalogue()
-            full = None if not ctx.quick else {c[0] for c in ctx.rng.sample(csym, min(8, len(csym))) + ctx.rng.sample(casym, min(12, len(casym)))}
+            full = None if not ctx.quick else ({c[0] for c in ctx.rng.sample(csym, min(8, len(csym))) + ctx.rng.sample(casym, min(12, len(casym)))}
+                                               | failing_catalogue_ids("C05"))
             for fam, tag in ((csym, "boundary-layout:"), (casym, "asymmetric-catalogue:")):
                 for lid, name, real in fam:
                     b = max(1500, per // (4 if ctx.quick else 6)) if full is None or lid in full else 0
